@@ -141,23 +141,44 @@ def flatten_case(els, tol, stratum):
     return Case([line_meta, line], 'IF', judge, stratum, 'oracle')
 
 
+def near_params(v, pts, lim):
+    """every parameter in [0,1] at which the squared distance from v to the curve has a critical point (or an end point) with value <= lim"""
+    px, py = O.seg_polys(pts)
+    fx, fy = O.padd(px, [-Fr(v[0])]), O.padd(py, [-Fr(v[1])])
+    d2 = O.padd(O.pmul(fx, fx), O.pmul(fy, fy))
+    cands = [Fr(0), Fr(1)]
+    dd = O.pderiv(d2)
+    if dd:
+        for lo, hi in O.isolate_roots(dd, Fr(0), Fr(1), Fr(1, 2 ** 40)):
+            cands.append((lo + hi) / 2)
+    out = sorted(t for t in cands if O.peval(d2, t) <= lim * Fr(101, 100))
+    return out
+
+
 def check_run(pts, verts, tol, ext):
     """pts: control points of the source segment (3 or 4), verts: emitted vertices (the last one is the end point)"""
     n = len(pts)
     lim = Fr(1e-11 * ext) ** 2 if n == 3 else (Fr(0.1 * tol) * Fr(1001, 1000) + Fr(1e-11 * ext)) ** 2
     ts = []
+    cand_sets = []
     for v in verts[:-1]:
         d2, t = O.min_dist2_point_curve(v, pts, Fr(1, 2 ** 40))
         if d2 > lim:
             return f'vertex {v} is {math.sqrt(float(d2))!r} from the source segment (limit {math.sqrt(float(lim))!r})'
         ts.append(t)
+        cand_sets.append(near_params(v, pts, lim))
     degenerate = all(abs((p[0] - pts[0][0]) * (pts[-1][1] - pts[0][1]) - (p[1] - pts[0][1]) * (pts[-1][0] - pts[0][0])) <= 1e-9 * ext * ext for p in pts)
     simple = (n == 3 and not degenerate) or (n == 4 and simple_cubic(pts))
     if simple:
         slack = Fr(1, 10 ** 7) if n == 3 else Fr(1, 50)
-        for a, b in zip(ts, ts[1:]):
-            if b < a - slack:
-                return f'vertices go backwards along the segment: parameters {float(a)} then {float(b)}'
+        # where two stretches of the curve run within the limit of each other (a hairpin), the NEAREST parameter of a vertex may sit on the other
+        # stretch: the vertices are in order iff SOME choice of admissible parameters (every critical point of the distance within the limit) increases
+        prev = None
+        for k, cs in enumerate(cand_sets):
+            ok = [t for t in cs if prev is None or t >= prev - slack]
+            if not ok:
+                return f'vertices go backwards along the segment: parameters {float(prev)} then {[float(t) for t in cs]}'
+            prev = min(ok)
         # distance bound in the claimed domain
         seg_ext = max(max(p[0] for p in pts) - min(p[0] for p in pts), max(p[1] for p in pts) - min(p[1] for p in pts))
         px, py = O.seg_polys(pts)
